@@ -134,11 +134,41 @@ pub fn prepare(op: &Op) -> Prepared {
     }
 }
 
-pub fn call_library(kind: &OpKind) -> Outcome {
-    call_library_prepared(kind, None)
+thread_local! {
+    /// long-lived Formatter objects of the current run: slot -> (picture, formatter)
+    static FORMATTERS: RefCell<BTreeMap<u32, (String, sqldatetime::Formatter)>> = const { RefCell::new(BTreeMap::new()) };
 }
 
-pub fn call_library_prepared(kind: &OpKind, prep: Option<&Prepared>) -> Outcome {
+pub fn reset_formatters() {
+    FORMATTERS.with(|f| f.borrow_mut().clear());
+}
+
+pub fn call_library(kind: &OpKind) -> Outcome {
+    call_library_prepared(kind, None, None)
+}
+
+fn parse_via_slot(slot: u32, ty: Ty, pic: &str, txt: &str) -> Result<i64, ()> {
+    FORMATTERS.with(|f| {
+        let mut f = f.borrow_mut();
+        let fresh = match f.get(&slot) {
+            Some((p, _)) => p != pic,
+            None => true,
+        };
+        if fresh {
+            let fmt = sqldatetime::Formatter::try_new(pic).map_err(|_| ())?;
+            f.insert(slot, (pic.to_string(), fmt));
+        }
+        let fmt = &f.get(&slot).expect("slot").1;
+        match ty {
+            Ty::Date => fmt.parse::<_, sqldatetime::Date>(txt).map(|d| d.days() as i64).map_err(|_| ()),
+            Ty::Timestamp => fmt.parse::<_, sqldatetime::Timestamp>(txt).map(|t| t.usecs()).map_err(|_| ()),
+            Ty::Oracle => fmt.parse::<_, sqldatetime::OracleDate>(txt).map(|t| t.usecs()).map_err(|_| ()),
+            Ty::Time => fmt.parse::<_, sqldatetime::Time>(txt).map(|t| t.usecs()).map_err(|_| ()),
+        }
+    })
+}
+
+pub fn call_library_prepared(kind: &OpKind, prep: Option<&Prepared>, slot: Option<u32>) -> Outcome {
     let res = std::panic::catch_unwind(std::panic::AssertUnwindSafe(|| -> Result<i64, ()> {
         match kind {
             OpKind::Parse { ty, toks } => {
@@ -153,6 +183,9 @@ pub fn call_library_prepared(kind: &OpKind, prep: Option<&Prepared>) -> Outcome 
                         (&owned.0, &owned.1)
                     }
                 };
+                if let Some(id) = slot {
+                    return parse_via_slot(id, *ty, pic, txt);
+                }
                 match ty {
                     Ty::Date => sqldatetime::Date::parse(&txt, &pic)
                         .map(|d| d.days() as i64)
@@ -394,7 +427,7 @@ pub fn exec_op(
     let ty = op_ty(&op.kind);
     let r_inv = clk.borrow().peek();
     clk.borrow_mut().begin_op(op.ticks);
-    let out = call_library_prepared(&op.kind, prep);
+    let out = call_library_prepared(&op.kind, prep, op.slot);
     stats.lib_calls += 1;
     stats.ops += 1;
     *stats.by_type.entry(ty.name()).or_default() += 1;
@@ -630,6 +663,7 @@ pub fn run_script(script: &Script, stats: &mut Stats, opts: &ExecOpts) -> (Optio
         script.start_offset,
     )));
     clock::install(&clk, true);
+    reset_formatters();
     let mut log = Fnv::new();
     log.write_i64(script.start_secs);
     let mut found = None;
